@@ -61,6 +61,16 @@ theorem writePacket_wellFormed (teid : BitVec 32) (q : Byte) (pl : Bytes)
   rw [writePacketMsg_eq]
   exact gpdu_qfi teid 0#8 q pl (by decide) hq hl
 
+/-- the container is four octets (length field 1) and its last octet carries the six-bit QFI and nothing else: the PPP and
+    RQI bits are clear whatever the QER says besides its QFI (paging policy indicator, reflective QoS) — so there is no
+    PPI octet and the length never changes -/
+theorem container_qfi_only (e : PSC) :
+    (encPSC e).length = 4 ∧ (encPSC e)[1]? = some 1#8 ∧ ∃ b, (encPSC e)[3]? = some b ∧ b &&& 0xC0#8 = 0#8 := by
+  refine ⟨rfl, rfl, e.qfi &&& 0x3f#8, rfl, ?_⟩
+  generalize e.qfi = q
+  revert q
+  decide
+
 /-- the encoded length is what `Len()` says (the buffer `WritePacket` allocates is filled exactly). -/
 theorem encode_length (m : Msg) (h : m.flags = 0x34#8) : (encode m).length = msgLen m := by
   have hs : ∀ l : List PSC, (List.map (List.length ∘ encPSC) l).sum = 4 * l.length := by
